@@ -296,7 +296,7 @@ def gen_parser_lines(ctx, numfx, paxfx):
     for b in prod(A, 4 if q else 5, 1):
         L.append("num %d %s %d" % (numfx, tok(b), len(b)))
     for _ in range(4000 if q else 40000):
-        w = rng.choice([8, 12, 12, 1, 2, 7, 9, 16])
+        w = rng.choice([8, 12, 12, 1, 2, 7, 9, 16, 21, 22, 23, 24])     # > 21 octal digits reach the overflow guard
         r = rng.random()
         if r < 0.3:
             b = bytes(rng.choice(b"01234567") for _ in range(w))
